@@ -89,6 +89,10 @@ def main(argv=None):
         tb = traceback.format_exc()
         rep.inconc("internal error in checker: " + tb[-1500:])
 
+    for pr in ctx._progs.values():
+        for old, new in getattr(pr, "aliases", {}).items():
+            rep.notes.append("%s does not exist on this tree; %s — the only associated function of BoundSet with the signature "
+                             "(Bound, Bound) -> Option<BoundSet> — is taken for it" % (new, old))
     missing = rep.check_floors()
     for m in missing:
         rep.inconc("anchor missing (rule matched fewer instances than confirmed on the pinned tree): " + m)
